@@ -1,6 +1,11 @@
 (* Config/Remote.v -- Gallina port of fetch_remote_config_with_client (src/config/remote.rs),
    for one URL with a project root present. Definitions only.
-   The cache file of the URL is [option centry] (absent, or body + mtime in Unix seconds).
+   The cache file of the URL is [option centry] (absent, or body + mtime in Unix seconds + what
+   sits at the entry path: a text file, a file whose bytes are not UTF-8 -- torn inside a
+   multi-byte character, say --, or a directory). Only a text file can be READ (fs::read_to_string);
+   the other two exist (cache_exists, is_cache_within_ttl look at the path and its mtime only) but
+   read as nothing, so they count as a cache miss under every policy. A directory cannot be
+   replaced by the cache write either (the open-for-lock fails, the error is ignored).
    SHA-256 is the section variable H (content -> lowercase hex text); nothing is assumed of it.
    The cache write goes through state::atomic_write_with_lock (temp file + rename): a kill
    inside write_to_cache leaves the states listed in [crash_write]. *)
@@ -11,8 +16,15 @@ Open Scope N_scope.
 
 Inductive policy := Normal | Offline | Refresh.
 
-Record centry := { c_body : str; c_mtime : N }.
+(* what sits at the entry path *)
+Inductive ekind := EText | EGarbled | EDir.
+
+(* c_body: the text of a text file; the raw bytes of a garbled file (never handed out); [] for a directory *)
+Record centry := { c_body : str; c_mtime : N; c_kind : ekind }.
 Definition cache := option centry.
+
+Definition readable (e : centry) : bool := match c_kind e with EText => true | _ => false end.
+Definition is_dir (e : centry) : bool := match c_kind e with EDir => true | _ => false end.
 
 (* what the scripted client answers to a GET *)
 Inductive server := SBody (b : str) | SFail (kind : N).   (* kind 1 = error, 2 = time-out (an error too) *)
@@ -34,17 +46,25 @@ Definition policy_eqb (a b : policy) : bool :=
   | _, _ => false
   end.
 
+(* fs::read_to_string(path).ok() *)
+Definition read_entry (e : centry) : option str := if readable e then Some (c_body e) else None.
+
 (* read_from_cache *)
 Definition read_cache (p : policy) (now : N) (c : cache) : option str :=
   match p, c with
   | Refresh, _ => None
   | _, None => None
-  | Offline, Some e => Some (c_body e)
-  | Normal, Some e => if within_ttl now e then Some (c_body e) else None
+  | Offline, Some e => read_entry e
+  | Normal, Some e => if within_ttl now e then read_entry e else None
   end.
 
-(* write_to_cache, completed *)
-Definition write_cache (now : N) (b : str) : cache := Some {| c_body := b; c_mtime := now |}.
+(* write_to_cache, completed: temp file renamed over the entry; over a directory the write fails
+   before the rename and the failure is ignored *)
+Definition write_cache (now : N) (c : cache) (b : str) : cache :=
+  match c with
+  | Some e => if is_dir e then c else Some {| c_body := b; c_mtime := now; c_kind := EText |}
+  | None => Some {| c_body := b; c_mtime := now; c_kind := EText |}
+  end.
 
 Section Fetch.
   Variable H : str -> str.
@@ -56,9 +76,9 @@ Section Fetch.
     | SFail k => (OFail k, c, 1)
     | SBody b =>
         match expected with
-        | Some h => if str_eqb (H b) h then (OContent b, write_cache now b, 1)
+        | Some h => if str_eqb (H b) h then (OContent b, write_cache now c b, 1)
                     else (OMismatch (H b), c, 1)
-        | None => (OContent b, write_cache now b, 1)
+        | None => (OContent b, write_cache now c b, 1)
         end
     end.
 
@@ -102,7 +122,7 @@ Section Fetch.
   Definition crash_write (cp : crash_point) (now : N) (c : cache) (b : str) : cache :=
     match cp with
     | BeforeRename => c
-    | AfterRename => write_cache now b
+    | AfterRename => write_cache now c b
     end.
 
   (* The write as it was before the repair: File::create (create + truncate), then write_all.
@@ -113,9 +133,9 @@ Section Fetch.
   Definition crash_write_plain (cp : plain_point) (now : N) (c : cache) (b : str) : cache :=
     match cp with
     | PBeforeCreate => c
-    | PAfterCreate => Some {| c_body := []; c_mtime := now |}
-    | PMidWrite n => Some {| c_body := firstn n b; c_mtime := now |}
-    | PAfterWrite => write_cache now b
+    | PAfterCreate => Some {| c_body := []; c_mtime := now; c_kind := EText |}
+    | PMidWrite n => Some {| c_body := firstn n b; c_mtime := now; c_kind := EText |}
+    | PAfterWrite => write_cache now c b
     end.
 
   (* a fetch whose process is killed at cp if (and only if) it reaches the cache write;
